@@ -9,7 +9,7 @@ from vt.core import L
 from vt.ref import tlv
 
 USES = ["view_settings", "view_settings_by_index", "view_raw", "view_raw_by_index", "decoder_rsa", "decoder_aes", "decoder_rand", "client",
-        "profile", "transform_get", "recover_get", "transform_post", "mutate", "session_rsa", "client_options", "derived"]
+        "profile", "transform_get", "recover_get", "transform_post", "mutate", "session_rsa", "client_options", "derived", "settings_map"]
 _G = {}
 
 
@@ -99,6 +99,10 @@ def do_use(u, cfg, env):
         cl.run(cfg, dry_run=True, beacon_id=4, user="u", computer="c", process="p", internal_ip="10.0.0.1", arch="x64", pid=1000)
         return norm((cl.beacon_id, cl.aes_key, cl.hmac_key, cl.domain, cl.get_uri, cl.submit_uri, cl.sleeptime, cl.jitter, cl.user_agent, cl.host_header, cl.metadata.dumps(),
                      cl.c2http.transform_response.tsteps, cl.c2http.transform_response.rsteps))
+    if u == "settings_map":
+        # the function behind the four views, with every combination of its arguments (each call builds a fresh mapping: a pure read)
+        return norm(tuple((it, pr, pa, tuple(cfg.settings_map(index_type=it, pretty=pr, parse=pa).items()))
+                          for it in ("enum", "name", "const") for pr in (True, False) for pa in (True, False)))
     if u == "derived":
         # the derived properties on their own (whichever views they are computed from must not matter)
         return norm((cfg.killdate, cfg.protocol, cfg.port, cfg.watermark, cfg.is_trial, cfg.domains, cfg.uris, cfg.domain_uri_pairs, cfg.submit_uri, cfg.sleeptime, cfg.jitter,
